@@ -201,6 +201,29 @@ def coupling_layers():
     return fails, n
 
 
+def mode_layers():
+    """the deprecated mode name maps to sequential wherever it comes from (stored options, call, both)"""
+    import itertools
+    import pandapipes as pp
+    from pandapipes.pf import pipeflow_setup
+    fails, n = [], 0
+    default_mode = pipeflow_setup.default_options.get("mode")
+    for um, cm in itertools.product((None, "all", "hydraulics", "sequential", "bidirectional"), repeat=2):
+        net = pp.create_empty_network(fluid="water")
+        if um is not None:
+            pp.set_user_pf_options(net, mode=um)
+        pipeflow_setup.init_options(net, **({"mode": cm} if cm is not None else {}))
+        n += 1
+        want = cm if cm is not None else (um if um is not None else default_mode)
+        want = "sequential" if want == "all" else want
+        got = net["_options"]["mode"]
+        if got != want:
+            fails.append({"fingerprint": "C14:deprecated-mode-mapping", "clause": "the deprecated mode name maps to sequential",
+                          "detail": {"stored_mode": um, "call_mode": cm, "in_force": got, "expected": want},
+                          "replay": {"case": {"layer": "mode"}}})
+    return fails, n
+
+
 def search(ctx, escalate=False):
     """observable effect on a real calculation: iteration budget and friction model actually used"""
     import pandapipes as pp
@@ -241,6 +264,9 @@ def search(ctx, escalate=False):
     cf, cn = coupling_layers()
     fails.extend(cf[:3])
     n += cn
+    mf, mn_ = mode_layers()
+    fails.extend(mf[:3])
+    n += mn_
     return {"evaluations": n, "distinct_nontrivial": len(hashes) + cn, "failures": fails, "samples": samples,
             "rule": "the correspondence enumerates every option key x presence pattern, every iter/stage-key pattern of both "
                     "layers and the couplings completely (see correspondence stats); the search additionally runs real "
@@ -249,6 +275,8 @@ def search(ctx, escalate=False):
 
 def replay(ctx, payload):
     case = payload.get("case", {})
+    if case.get("layer") == "mode":
+        return mode_layers()[0][:3] or None
     if case.get("layer") == "coupling":
         return coupling_layers()[0][:3] or None
     if case.get("layer") == "history":
